@@ -672,15 +672,11 @@ class Plucker(SMUserList):
         l1 = self
         if l1 | l2:
             # lines are parallel
-            l = np.cross(l1.w, l1.v - l2.v * np.dot(l1.w, l2.w) / dot(l2.w, l2.w)) / np.linalg.norm(l1.w)
+            l = np.linalg.norm(l1.v - l2.v * np.dot(l1.w, l2.w) / np.dot(l2.w, l2.w)) / np.linalg.norm(l1.w)
         else:
             # lines are not parallel
-            if abs(l1 * l2) < 10*_eps:
-                # lines intersect at a point
-                l = 0
-            else:
-                # lines don't intersect, find closest distance
-                l = abs(l1 * l2) / np.linalg.norm(np.cross(l1.w, l2.w))**2
+            # |reciprocal product| / |w1 x w2| (zero when the lines intersect)
+            l = abs(np.dot(l1.w, l2.v) + np.dot(l2.w, l1.v)) / np.linalg.norm(np.cross(l1.w, l2.w))
         return l
 
     
